@@ -25,6 +25,7 @@ THEOREMS = [
         "C13_TopicMapper_valid_implies_precond",
         "C13_Proxy_valid_implies_precond_partial",
         "C13_Proxy_precond_no_panic",
+        "C13_Pipeline_valid_implies_precond_partial",
         "C13_validators_modelled",
         "C13_refuted_wr_zero_total",
         "C13_refuted_rl_zero_period",
@@ -252,11 +253,12 @@ def extra_evidence(tier, cases, results):
         partial_claim=dict(
             theorem_covers=["RateLimiter", "Validator", "RequestAdaptor", "ResponseAdaptor", "Retry", "CircuitBreaker",
                             "RequestBuilder", "ResponseBuilder", "TopicMapper", "Proxy (partial: main-pool uniqueness, compiled "
-                            "regexps, weightedRandom total under the repaired run time)"],
+                            "regexps, weightedRandom total under the repaired run time)",
+                            "Pipeline (partial: flow names, policy names, namespaces, Init sites of nested filters)"],
             validate_methods_modelled_and_compared=MODELLED,
             schema_decode_format_compared_for="every registered kind (generic interpreter over GenSchema)",
             sampled_no_panic_oracle_only=["CertExtractor", "ConnectControl", "HeaderToJSON", "MQTTClientAuth", "MeshAdaptor", "Mock",
-                                          "Pipeline (run time: flow/namespace/policy references modelled as findings only)",
+                                          "Pipeline (Handle-time sites of nested filters)",
                                           "HTTPServer", "GlobalFilter", "MQTTProxy"],
             not_instantiated=EXTERNAL),
         kinds_reaching_validation=kinds)
